@@ -24,6 +24,11 @@ def py_index(ixj, ax, as_array=False):
                 for i, v in enumerate(vals):
                     arr[i] = v
                 return arr
+            if any(isinstance(v, str) for v in vals):
+                arr = np.empty(len(vals), dtype=object)          # (an index beyond the last dimension has no axis kind)
+                for i, v in enumerate(vals):
+                    arr[i] = v
+                return arr
             if kind == "i" and any(isinstance(v, float) for v in vals):
                 return np.array(vals, dtype=np.float64)          # never truncate a non-integral request
             return np.array(vals, dtype={"i": np.int64, "f": np.float64}[kind])
